@@ -86,7 +86,7 @@ def _chk_center(args, res, old):
             old["estimator"], old["by_chrom"], old["skip_low"], old["par"], est)
 
 
-contract("cnvlib/cnary.py::CopyNumArray.center_all", params=dict(cnarr=ObjT("CopyNumArray")), bounded=True,
+contract("cnvlib/cnary.py::CopyNumArray.center_all#rt", params=dict(cnarr=ObjT("CopyNumArray")), bounded=True,
          gen=_gen_center, call=_call_center, props=("C15", "C04"), checks=[("uniform_shift_zeroes_autosomes", _chk_center)])
 
 
@@ -265,3 +265,37 @@ contract(
     canaries=[("returns_self", "outprobes = self.copy()", "outprobes = self"),
               ("wrong_sign", '"log2"] -= 1.0', '"log2"] += 1.0')],
 )
+
+
+# ----------------------------------------------------------------------------- deductive: centring is one uniform shift
+# The estimator is a callable parameter: an opaque, congruent functional of its vector argument.  That the estimator of
+# the shifted autosomes is then zero needs the estimator's shift-equivariance (C19's business) and stays with the
+# bounded contract center_all#rt.
+contract(
+    "cnvlib/cnary.py::CopyNumArray.center_all",
+    params=dict(self=CNA(), estimator=FuncT("EST", args=("vec",)), by_chrom=Bool, skip_low=Bool, verbose=Lit(False),
+                diploid_parx_genome=BUILD),
+    returns=Lit(None),
+    requires=[],
+    modifies=("self.data",),
+    ensures=[
+        ("rowcount", "len(self.data) == len(old(self.data))"),
+        # one constant is added to every bin: missing values stay missing, and any two bins move by the same amount
+        ("uniform_shift", "forall(0, len(self.data), lambda j: isnull(self.data.log2[j]) == isnull(old(self.data).log2[j]) and "
+                          "forall(0, len(self.data), lambda k: implies(not isnull(self.data.log2[j]) and not isnull(self.data.log2[k]), "
+                          "val(self.data.log2[j]) - val(old(self.data).log2[j]) == val(self.data.log2[k]) - val(old(self.data).log2[k]))))"),
+        ("other_columns", "forall(0, len(self.data), lambda k: self.data.chromosome[k] == old(self.data).chromosome[k] and "
+                          "self.data.start[k] == old(self.data).start[k] and self.data.end[k] == old(self.data).end[k] and "
+                          "self.data.gene[k] == old(self.data).gene[k])"),
+    ],
+    ghost=dict(frame_exempt_keys=("chr_x", "chr_y")),
+    props=("C15",), domain="skip",
+    canaries=[("scale_not_shift", 'self.data["log2"] += shift', 'self.data["log2"] *= shift'),
+              ("not_on_x", 'self.data["log2"] += shift', 'self.data.loc[self.chromosome != self.chr_x_label, "log2"] += shift'),
+              ("moves_coordinates", 'self.data["log2"] += shift', 'self.data["log2"] += shift; self.data["start"] += 1')],
+)
+
+contract("skgenome/gary.py::GenomicArray.by_chromosome", params=dict(self=CNA()),
+         yields=TupT(CHROM, CNA(index="any")), trusted=True, requires=[], ensures=[], props=(), domain="skip",
+         notes="per-chromosome sub-arrays (pandas groupby): assumed to yield some sequence of (name, array) pairs; "
+               "what they contain is the bounded contracts' business (C15 center_all#rt)")
